@@ -2,6 +2,7 @@ import itertools
 from collections.abc import Mapping, Sequence
 from functools import update_wrapper
 from inspect import Parameter, Signature
+from keyword import iskeyword
 from typing import Any, Callable, Optional
 
 from ..code_tools.cascade_namespace import BuiltinCascadeNamespace, CascadeNamespace
@@ -52,10 +53,12 @@ class BuiltinConverterProvider(ConverterProvider):
             ),
             lambda x: "Cannot create top-level coercer",
         )
-        closure_name = self._get_closure_name(request)
+        function_name = self._get_closure_name(request)
+        closure_name = self._get_closure_var(function_name)
         dumper_code, dumper_namespace = self._produce_code(
             signature=request.signature,
             closure_name=closure_name,
+            function_name=function_name,
             stub_function=request.stub_function,
             coercer=coercer,
         )
@@ -85,6 +88,7 @@ class BuiltinConverterProvider(ConverterProvider):
         stub_function: Optional[Callable],
         closure_name: str,
         coercer: Coercer,
+        function_name: Optional[str] = None,
     ) -> tuple[str, Mapping[str, object]]:
         builder = CodeBuilder()
         # the closure itself is a local variable of the closure maker, it must not shadow a constant
@@ -109,7 +113,7 @@ class BuiltinConverterProvider(ConverterProvider):
         if stub_function is not None:
             builder += f"_update_wrapper({closure_name}, _stub_function)"
         builder += f"{closure_name}.__signature__ = _closure_signature"
-        builder += f"{closure_name}.__name__ = {closure_name!r}"
+        builder += f"{closure_name}.__name__ = {(closure_name if function_name is None else function_name)!r}"
         return builder.string(), namespace.all_constants
 
     def _get_ctx_passing(self, ctx_parameters: Sequence[Parameter]) -> str:
@@ -121,6 +125,12 @@ class BuiltinConverterProvider(ConverterProvider):
 
     def _get_compiler(self) -> ClosureCompiler:
         return BasicClosureCompiler()
+
+    def _get_closure_var(self, function_name: str) -> str:
+        # the requested name of the function is arbitrary text, the name used in the generated source must be an identifier
+        if function_name.isidentifier() and not iskeyword(function_name):
+            return function_name
+        return self._name_sanitizer.sanitize(f"converter_{function_name}")
 
     def _get_closure_name(self, request: ConverterRequest) -> str:
         if request.function_name is not None:
